@@ -398,7 +398,9 @@ def typed_dict_signature(obj: tp.Callable) -> inspect.Signature:
         Technically, these are dicts at runtime, but we are enforcing a static shape,
         so we should be able to declare a matching signature for it.
     """
-    hints = cached_type_hints(obj)
+    # The hints of the class itself: asking for an exhaustive answer would come back
+    #   here when there are none (an empty TypedDict, an unresolvable annotation).
+    hints = get_type_hints(obj, exhaustive=False)
     total = getattr(obj, "__total__", True)
     default = inspect.Parameter.empty if total else ...
     return inspect.Signature(
